@@ -227,6 +227,37 @@ def _helper_direct(ctx, mod, fi, R):
     return True
 
 
+def _inline_loop_helpers(mod, body):
+    """The correction loop may live in a private function of its own (x = _f(a, b, c) at the top level of the helper, _f's
+    body a straight line with one loop and one trailing return): for the loop argument the call is replaced by that body,
+    so that the loop stands where the call stood."""
+    import copy
+    out = []
+    for st in body:
+        callee = None
+        if isinstance(st, ast.Assign) and len(st.targets) == 1 and isinstance(st.targets[0], ast.Name) and isinstance(st.value, ast.Call) \
+                and isinstance(st.value.func, ast.Name) and st.value.func.id in mod.functions and not st.value.keywords \
+                and all(isinstance(a, (ast.Name, ast.Constant)) for a in st.value.args):
+            cfi = mod.functions[st.value.func.id]
+            cbody = [x for x in cfi.body if not (isinstance(x, ast.Expr) and isinstance(getattr(x, "value", None), ast.Constant))]
+            rets = [n for x in cbody for n in ast.walk(x) if isinstance(n, ast.Return)]
+            if cbody and isinstance(cbody[-1], ast.Return) and len(rets) == 1 and any(isinstance(x, ast.While) for x in cbody) \
+                    and len(cfi.params) == len(st.value.args) and not cfi.node.args.vararg and not cfi.node.args.kwarg:
+                callee = (cfi, cbody)
+        if callee is None:
+            out.append(st)
+            continue
+        cfi, cbody = callee
+        for prm, arg in zip(cfi.params, st.value.args):
+            if not (isinstance(arg, ast.Name) and arg.id == prm):
+                out.append(ast.copy_location(ast.Assign(targets=[ast.Name(id=prm, ctx=ast.Store())], value=copy.deepcopy(arg)), st))
+        out.extend(copy.deepcopy(x) for x in cbody[:-1])
+        out.append(ast.copy_location(ast.Assign(targets=[copy.deepcopy(st.targets[0])], value=copy.deepcopy(cbody[-1].value)), st))
+    for x in out:
+        ast.fix_missing_locations(x)
+    return out
+
+
 def rule_helper(ctx, mod, R="R-C02-2"):
     fi = mod.func(HELPER)
     ctx.touch(fi)
@@ -239,6 +270,7 @@ def rule_helper(ctx, mod, R="R-C02-2"):
     # times cannot be evaluated like that, and is judged by the loop-invariant argument below instead.
     if _helper_direct(ctx, mod, fi, R):
         return
+    body = _inline_loop_helpers(mod, body)
     widx = [i for i, s in enumerate(body) if isinstance(s, ast.While)]
     if not widx:
         raise AnalysisError("%s: cannot be evaluated directly, and no top-level correction loop found" % HELPER)
